@@ -51,6 +51,7 @@ fn main() {
     std::panic::set_hook(Box::new(|_| {}));
     let rep = match sub.as_str() {
         "c07-check" => c07::check(&ctx),
+        "c07-run" => c07::rt::run(&ctx),
         "c15-names" => c15::names(&ctx),
         other => {
             eprintln!("unknown sub-command {other}");
